@@ -21,6 +21,7 @@ type Case struct {
 	Name     string
 	Lines    []string
 	Features []string // what makes it non-trivial (measured by the generator)
+	Keep     int      // leading lines the shrinker must keep (schema set-up)
 }
 
 // Impl executes protocol lines against the real implementation.
@@ -180,7 +181,101 @@ func differential(mode string, mk func() Impl, cases []Case) (goOuts [][]string,
 }
 
 // shrink: delta-debugging over lines (the first `keep` lines are never removed).
+// protectedLine: schema / set-up lines are never removed by the shrinker (removing a column on
+// one collection only would change the meaning of every later line)
+func protectedLine(l string) bool {
+	f := strings.Fields(l)
+	if len(f) == 0 {
+		return false
+	}
+	switch f[0] {
+	case "reset", "hash", "new":
+		return true
+	}
+	if len(f) > 1 {
+		switch f[1] {
+		case "col", "index", "sortindex", "trigger", "dropcol", "dropindex", "droptrigger":
+			return true
+		}
+	}
+	return false
+}
+
 func shrink(c Case, keep int, fails func(Case) bool) Case {
+	if c.Keep > 0 {
+		return shrinkProtected(c, fails)
+	}
+	return shrinkPlain(c, keep, fails)
+}
+
+// shrinkProtected: ddmin over the removable lines only
+func shrinkProtected(c Case, fails func(Case) bool) Case {
+	var removable []int
+	for i, l := range c.Lines {
+		if !protectedLine(l) {
+			removable = append(removable, i)
+		}
+	}
+	build := func(keepIdx map[int]bool) []string {
+		var out []string
+		for i, l := range c.Lines {
+			if protectedLine(l) || keepIdx[i] {
+				out = append(out, l)
+			}
+		}
+		return out
+	}
+	cur := append([]int(nil), removable...)
+	n := 2
+	budget := 300
+	for len(cur) >= 1 && budget > 0 {
+		chunk := (len(cur) + n - 1) / n
+		reduced := false
+		for start := 0; start < len(cur) && budget > 0; start += chunk {
+			end := start + chunk
+			if end > len(cur) {
+				end = len(cur)
+			}
+			keepIdx := map[int]bool{}
+			for j, idx := range cur {
+				if j < start || j >= end {
+					keepIdx[idx] = true
+				}
+			}
+			budget--
+			if fails(Case{Name: c.Name, Lines: build(keepIdx), Keep: c.Keep}) {
+				var next []int
+				for j, idx := range cur {
+					if j < start || j >= end {
+						next = append(next, idx)
+					}
+				}
+				cur = next
+				if n > 2 {
+					n--
+				}
+				reduced = true
+				break
+			}
+		}
+		if !reduced {
+			if chunk <= 1 {
+				break
+			}
+			n *= 2
+			if n > len(cur) {
+				n = len(cur)
+			}
+		}
+	}
+	keepIdx := map[int]bool{}
+	for _, idx := range cur {
+		keepIdx[idx] = true
+	}
+	return Case{Name: c.Name, Lines: build(keepIdx), Features: c.Features, Keep: c.Keep}
+}
+
+func shrinkPlain(c Case, keep int, fails func(Case) bool) Case {
 	lines := append([]string(nil), c.Lines...)
 	n := 2
 	budget := 400
@@ -197,7 +292,7 @@ func shrink(c Case, keep int, fails func(Case) bool) Case {
 			cand = append(cand, body[:start]...)
 			cand = append(cand, body[end:]...)
 			budget--
-			if fails(Case{Name: c.Name, Lines: cand}) {
+			if fails(Case{Name: c.Name, Lines: cand, Keep: c.Keep}) {
 				lines = cand
 				if n > 2 {
 					n--
@@ -216,7 +311,7 @@ func shrink(c Case, keep int, fails func(Case) bool) Case {
 			}
 		}
 	}
-	return Case{Name: c.Name, Lines: lines, Features: c.Features}
+	return Case{Name: c.Name, Lines: lines, Features: c.Features, Keep: c.Keep}
 }
 
 func hashLines(lines []string) string {
